@@ -15,6 +15,7 @@ pub unsafe fn set_hook(hook: Option<fn(u32)>) {
 }
 
 /// Called by the library at a yield point; `id` names the place.
+#[cfg(not(kani))]
 #[inline]
 pub fn yield_point(id: u32) {
 	// SAFETY: see `set_hook`
@@ -22,6 +23,20 @@ pub fn yield_point(id: u32) {
 		hook(id);
 	}
 }
+
+/// Under the model checker an indirect call through `HOOK` would make every yield point a
+/// dispatch over all `fn(u32)` in the program; harnesses that schedule replace
+/// [`kani_yield`] with `#[kani::stub]` instead, and for all others it is empty.
+#[cfg(kani)]
+#[inline]
+pub fn yield_point(id: u32) {
+	kani_yield(id);
+}
+
+/// See [`yield_point`].
+#[cfg(kani)]
+#[inline(never)]
+pub fn kani_yield(_id: u32) {}
 
 /// `ClockShared::fractional_position`: between the handle's read of `ticks` and of the fraction.
 pub const CLOCK_READ_BETWEEN_WORDS: u32 = 1;
